@@ -67,6 +67,7 @@ var props = map[string]propInfo{
 	"C23": {Engine: "bgp", Quick: 8000, Thorough: 240000},
 	"C24": {Engine: "bgp", Quick: 6000, Thorough: 180000},
 	"C25": {Engine: "bgp", Quick: 6000, Thorough: 180000},
+	"C26": {Engine: "bgp", Quick: 1200, Thorough: 60000, BatchSize: 10, Race: true, PerRunTimeout: 60 * time.Second},
 	"C27": {Engine: "bgp", Quick: 20000, Thorough: 600000, BatchSize: 250},
 	"C28": {Engine: "bgp", Quick: 20000, Thorough: 600000, BatchSize: 250},
 	"C29": {Engine: "bgp", Quick: 40000, Thorough: 1200000, BatchSize: 500},
@@ -127,7 +128,9 @@ func infra(format string, args ...any) {
 func baseEnv() []string {
 	env := os.Environ()
 	env = append(env, "GOFLAGS=-mod=mod", "GOPROXY=off", "GOSUMDB=off", "GOTOOLCHAIN=local",
-		"PATH="+goBin+":"+os.Getenv("PATH"), "GODEBUG=asyncpreemptoff=1")
+		"PATH="+goBin+":"+os.Getenv("PATH"), "GODEBUG=asyncpreemptoff=1",
+		// race build only: reports go to <cwd>/racelog.<pid>, where the engine collects them per run
+		"GORACE=log_path=racelog")
 	return env
 }
 
@@ -252,7 +255,9 @@ func build(engine string, race bool) string {
 	tmp := bin + fmt.Sprintf(".tmp%d", os.Getpid())
 	args := []string{"test", "-c", "-tags", "verif", "-overlay=" + filepath.Join(dir, "overlay.json"), "-o", tmp}
 	if race {
-		args = append(args, "-race")
+		// product code is instrumented; the simulator runtime and the harness are not (and are not
+		// inlined into instrumented callers), see simrt/lock_race.go
+		args = append(args, "-race", "-gcflags=verif.local/simrt=-race=false -l", "-gcflags=verif.local/harness/"+engine+"=-race=false -l")
 	}
 	args = append(args, "./"+engine)
 	if out, err := run(hdir, 20*time.Minute, filepath.Join(goBin, "go"), args...); err != nil {
@@ -427,6 +432,7 @@ type replayFile struct {
 	Minimised   bool            `json:"minimised"`
 	ShrinkRuns  int             `json:"shrink_runs,omitempty"`
 	ReplayExact bool            `json:"replay_exact"`
+	ReplayRate  string          `json:"replay_rate,omitempty"` // race build: reproductions / attempts
 	Plan        json.RawMessage `json:"plan"`
 	Trace       []string        `json:"trace,omitempty"`
 }
@@ -803,7 +809,9 @@ func main() {
 	}
 	fmt.Printf("vcheck %s: %d runs, %d distinct non-trivial shapes, %.0f simulated s, %d crashes, determinism %d/%d, wall %.1fs, exit %d\n",
 		prop, evals, len(shapes), float64(simNS)/1e9, len(col.crashes), identical, rechecked, wall, exit)
-	if len(nondet) > 0 {
+	if len(nondet) > 0 && info.Race {
+		fmt.Printf("vcheck %s: note: run indices %v took another interleaving in a second process (the Go runtime randomises wake-ups under the race detector; see DESIGN.md, C26)\n", prop, nondet)
+	} else if len(nondet) > 0 {
 		fmt.Printf("vcheck %s: WARNING: run indices %v did not reproduce their trace in a second process\n", prop, nondet)
 	}
 	cleanup()
@@ -871,9 +879,28 @@ func readReplay(path string) *replayFile {
 	return &rf
 }
 
+// fileSafe turns an assertion id into a file name component.
+func fileSafe(a string) string {
+	var sb strings.Builder
+	for _, r := range a {
+		switch {
+		case r >= 'a' && r <= 'z', r >= 'A' && r <= 'Z', r >= '0' && r <= '9', r == '_', r == '-', r == '.':
+			sb.WriteRune(r)
+		default:
+			sb.WriteByte('_')
+		}
+	}
+	out := sb.String()
+	if len(out) > 120 {
+		h := sha256.Sum256([]byte(a))
+		out = out[:100] + "-" + hex.EncodeToString(h[:4])
+	}
+	return out
+}
+
 // reportViolation confirms, minimises and writes the replay file of a violation.
 func reportViolation(bin, work, prop, assertion string, l outLine, v violation, tier string) string {
-	path := filepath.Join(verifDir, "replays", fmt.Sprintf("%s-%s-%d.json", prop, assertion, l.Seed))
+	path := filepath.Join(verifDir, "replays", fmt.Sprintf("%s-%s-%d.json", prop, fileSafe(assertion), l.Seed))
 	rf := replayFile{Property: prop, Assertion: assertion, Seed: l.Seed, Detail: v.Detail, Plan: l.Plan}
 	if len(l.Plan) == 0 {
 		// crash without a plan line: regenerate the plan by index is not possible here; store what we know
@@ -881,7 +908,7 @@ func reportViolation(bin, work, prop, assertion string, l outLine, v violation, 
 		os.WriteFile(path, b, 0o644)
 		return path
 	}
-	tmp := filepath.Join(work, fmt.Sprintf("cand-%s-%d.json", assertion, l.Seed))
+	tmp := filepath.Join(work, fmt.Sprintf("cand-%s-%d.json", fileSafe(assertion), l.Seed))
 	b, _ := json.Marshal(rf)
 	os.WriteFile(tmp, b, 0o644)
 	if assertion != "dut_crash" && assertion != "harness_or_oracle_panic" {
@@ -902,6 +929,24 @@ func reportViolation(bin, work, prop, assertion string, l outLine, v violation, 
 	// replay the (minimised) file twice in fresh processes: must fail the same way with the same trace
 	b, _ = json.Marshal(rf)
 	os.WriteFile(tmp, b, 0o644)
+	if props[prop].Race {
+		// race build: the Go runtime randomises wake-ups under the race detector, so a replay is the
+		// same plan and the same seeded yields but not necessarily the same interleaving; the file
+		// records how often the report came back
+		n, hit := 12, 0
+		for k := 0; k < n; k++ {
+			if r, _ := replayOnce(bin, work, tmp); r != nil && r.Result != nil {
+				if _, ok := hasAssertion(r.Result, assertion); ok {
+					hit++
+				}
+			}
+		}
+		rf.ReplayRate = fmt.Sprintf("%d/%d", hit, n)
+		rf.ReplayExact = hit == n
+		b, _ = json.MarshalIndent(rf, "", " ")
+		os.WriteFile(path, b, 0o644)
+		return path
+	}
 	r1, _ := replayOnce(bin, work, tmp)
 	r2, _ := replayOnce(bin, work, tmp)
 	if r1 != nil && r2 != nil && r1.Result != nil && r2.Result != nil {
@@ -921,6 +966,22 @@ func doReplay(bin, work, prop, file string) int {
 	rf := readReplay(file)
 	if rf == nil {
 		infra("cannot read replay file %s", file)
+	}
+	if props[prop].Race && rf.Assertion != "dut_crash" {
+		// race build: same plan and yields, interleaving partly up to the Go runtime; try a few times
+		n := 40
+		for k := 1; k <= n; k++ {
+			l, _ := replayOnce(bin, work, file)
+			if l == nil || l.Result == nil {
+				continue
+			}
+			if v, ok := hasAssertion(l.Result, rf.Assertion); ok {
+				fmt.Printf("VIOLATION property=%s replay=%s\n  assertion=%s (reproduced at attempt %d of at most %d): %s\n", prop, file, v.Assertion, k, n, v.Detail)
+				return 1
+			}
+		}
+		fmt.Printf("replay of %s: assertion %s did not fail in %d attempts\n", file, rf.Assertion, n)
+		return 0
 	}
 	l, msg := replayOnce(bin, work, file)
 	if l == nil {
